@@ -539,6 +539,30 @@ func (c *Conn) Close() error {
 	return nil
 }
 
+// WriteTo mirrors (*net.TCPConn).WriteTo, which io.Copy prefers over a Read loop: the bytes are
+// copied with plain Reads, and an error other than io.EOF is wrapped in a second *net.OpError with
+// Op "writeto" around the read's own *net.OpError — both name the two endpoints.
+func (c *Conn) WriteTo(w io.Writer) (int64, error) {
+	var n int64
+	buf := make([]byte, 32*1024)
+	for {
+		nr, er := c.Read(buf)
+		if nr > 0 {
+			nw, ew := w.Write(buf[:nr])
+			n += int64(nw)
+			if ew != nil {
+				return n, &net.OpError{Op: "writeto", Net: "tcp", Source: c.laddr, Addr: c.raddr, Err: ew}
+			}
+		}
+		if er == io.EOF {
+			return n, nil
+		}
+		if er != nil {
+			return n, &net.OpError{Op: "writeto", Net: "tcp", Source: c.laddr, Addr: c.raddr, Err: er}
+		}
+	}
+}
+
 // SetLinger records SO_LINGER (see Close). It fails on a closed connection like the real call.
 func (c *Conn) SetLinger(sec int) error {
 	c.mu.Lock()
